@@ -259,6 +259,9 @@ def expand_extract(ex, canary=False):
     text, n = rules.strip_attrs(text)
     if n:
         fired.append('attrs x%d' % n)
+    text, n = rules.r3_flatten_paths(text)
+    if n:
+        fired.append('R3p module paths flattened x%d' % n)
     text, n = rules.r1c_cfg(text, ex.cfg)
     if n:
         fired.append('R1c cfg=%s x%d' % (ex.cfg, n))
